@@ -86,3 +86,314 @@ package util
 //@   ensures forall c string, p token.Pos :: eff(s, c, p) <==> (old(eff(s, c, p)) || (exists t string :: inHier(t, c) && contains(annotation.GetCodes(), t) && annotation.GetStartPos() <= p && p <= annotation.GetEndPos()))
 //@   loop 1 invariant s.Initialized && s.CodeIndex != nil && idxValid(s) && idxComplete(s, index)
 //@   loop 1 invariant forall j int :: 0 <= j && j < $i ==> indom(s.CodeIndex, marker.Codes[j]) && contains(s.CodeIndex[marker.Codes[j]], index)
+
+// ---- TypesMap: a set of (package path, type name) ------------------------------------------------
+// well-formed: inner maps exist, are allocated and are not shared between packages
+//@ pure func tmWF(m TypesMap) bool = m != nil && allocated(m) && (forall p string :: indom(m, p) ==> m[p] != nil && allocated(m[p]) && m[p] != m) && (forall p string, q string :: indom(m, p) && indom(m, q) && p != q ==> m[p] != m[q])
+//@ macro func tmHas(m TypesMap, p string, t string) bool = indom(m, p) && m[p][t]
+
+//@ func NewTypesMap
+//@   props C01 C03 C09 C10
+//@   fresh
+//@   ensures tmWF(result) && len(result) == 0
+//@   assigns nothing
+
+//@ func TypesMap.Add
+//@   props C01 C03 C09 C10
+//@   requires tmWF(m)
+//@   assigns m[all], m[pkgPath][all]
+//@   ensures tmWF(m)
+//@   ensures forall p string, t string :: tmHas(m, p, t) <==> (old(tmHas(m, p, t)) || (p == pkgPath && t == typeName))
+
+//@ func TypesMap.Contains
+//@   props C01 C03 C09 C10
+//@   ensures result == tmHas(m, pkgPath, typeName)
+//@   assigns nothing
+
+//@ func TypesMap.Empty
+//@   props C01 C03 C09 C10
+//@   ensures result == (len(m) == 0)
+//@   ensures result ==> (forall p string, t string :: !tmHas(m, p, t))
+//@   assigns nothing
+
+// ---- TypeAssociationRegistry: (package path, type name) -> list of associated names ---------------
+//@ pure func tarWF(r TypeAssociationRegistry) bool = r != nil && allocated(r) && (forall p string :: indom(r, p) ==> r[p] != nil && allocated(r[p]) && r[p] != r) && (forall p string, q string :: indom(r, p) && indom(r, q) && p != q ==> r[p] != r[q])
+// the list associated with (p, t); empty (nil) when absent
+//@ macro func tarList(r TypeAssociationRegistry, p string, t string) []string = r[p][t]
+
+//@ func NewTypeAssociationRegistry
+//@   props C01 C02 C03 C09 C10
+//@   fresh
+//@   ensures tarWF(result) && len(result) == 0
+//@   assigns nothing
+
+//@ func TypeAssociationRegistry.Add
+//@   props C01 C02 C03 C09 C10
+//@   requires tarWF(tar)
+//@   assigns tar[all], tar[pkgPath][all]
+//@   ensures tarWF(tar)
+//@   ensures forall x string :: contains(tarList(tar, pkgPath, typeName), x) <==> (contains(old(tarList(tar, pkgPath, typeName)), x) || x == associatedName)
+//@   ensures len(tarList(tar, pkgPath, typeName)) == old(len(tarList(tar, pkgPath, typeName))) + 1
+//@   ensures forall p string, t string :: !(p == pkgPath && t == typeName) ==> tarList(tar, p, t) == old(tarList(tar, p, t))
+
+//@ func TypeAssociationRegistry.Match
+//@   props C01 C02 C03 C09 C10
+//@   ensures result == contains(tarList(tar, pkgPath, expectedType), associatedName)
+//@   assigns nothing
+//@   loop 1 invariant forall k int :: 0 <= k && k < $i ==> items[k] != associatedName
+
+//@ func TypeAssociationRegistry.GetAssociated
+//@   props C02 C10
+//@   ensures result == tarList(tar, pkgPath, typeName)
+//@   assigns nothing
+
+//@ func TypeAssociationRegistry.HasType
+//@   props C02 C09 C10
+//@   ensures result == (len(tarList(tar, pkgPath, typeName)) > 0)
+//@   assigns nothing
+
+//@ func TypeAssociationRegistry.Empty
+//@   props C01 C02 C03 C09 C10
+//@   ensures result == (len(tar) == 0)
+//@   ensures result ==> (forall p string, t string :: len(tarList(tar, p, t)) == 0)
+//@   assigns nothing
+
+// ---- AttachmentsMap: allow-lists attached to packages, functions, types, fields and methods ------------
+// Abstract views (absent entries read as the empty list, exactly as Go's zero values do):
+//@ macro func amPkgAtt(am *AttachmentsMap, p string) []string = am.packageAttachments[p].LocalAttachments
+//@ macro func amFuncAtt(am *AttachmentsMap, p string, f string) []string = am.packageAttachments[p].FunctionsAttachments[f]
+//@ macro func amTypeAtt(am *AttachmentsMap, p string, t string) []string = am.packageAttachments[p].TypesAttachments[t].LocalAttachments
+//@ macro func amFieldAtt(am *AttachmentsMap, p string, t string, f string) []string = am.packageAttachments[p].TypesAttachments[t].FieldsAttachments[f]
+//@ macro func amMethAtt(am *AttachmentsMap, p string, t string, m string) []string = am.packageAttachments[p].TypesAttachments[t].MethodsAttachments[m]
+
+//@ func TypeAttachments.HasAttachment
+//@   props C04 C10
+//@   nilrecv
+//@   ensures result == (t != nil && contains(t.LocalAttachments, attachment))
+//@   assigns nothing
+//@ func TypeAttachments.HasFieldAttachment
+//@   props C04 C10
+//@   nilrecv
+//@   ensures result == (t != nil && contains(t.FieldsAttachments[field], attachment))
+//@   assigns nothing
+//@ func TypeAttachments.HasMethodAttachment
+//@   props C04 C10
+//@   nilrecv
+//@   ensures result == (t != nil && contains(t.MethodsAttachments[method], attachment))
+//@   assigns nothing
+//@ func PackageAttachments.HasAttachment
+//@   props C04 C10
+//@   nilrecv
+//@   ensures result == (t != nil && contains(t.LocalAttachments, attachment))
+//@   assigns nothing
+//@ func PackageAttachments.HasFunctionAttachment
+//@   props C04 C10
+//@   nilrecv
+//@   ensures result == (t != nil && contains(t.FunctionsAttachments[funcname], attachment))
+//@   assigns nothing
+//@ func PackageAttachments.HasTypeAttachment
+//@   props C04 C10
+//@   nilrecv
+//@   ensures result == (t != nil && contains(t.TypesAttachments[typename].LocalAttachments, attachment))
+//@   assigns nothing
+//@ func PackageAttachments.HasTypeFieldAttachment
+//@   props C04 C10
+//@   nilrecv
+//@   ensures result == (t != nil && contains(t.TypesAttachments[typename].FieldsAttachments[field], attachment))
+//@   assigns nothing
+//@ func PackageAttachments.HasTypeMethodAttachment
+//@   props C04 C10
+//@   nilrecv
+//@   ensures result == (t != nil && contains(t.TypesAttachments[typename].MethodsAttachments[method], attachment))
+//@   assigns nothing
+//@ func AttachmentsMap.HasPkgAttachment
+//@   props C04 C10
+//@   nilrecv
+//@   ensures result == (t != nil && contains(amPkgAtt(t, pkg), attachment))
+//@   assigns nothing
+//@ func AttachmentsMap.HasPkgFunctionAttachment
+//@   props C04 C10
+//@   nilrecv
+//@   ensures result == (t != nil && contains(amFuncAtt(t, pkg, funcname), attachment))
+//@   assigns nothing
+//@ func AttachmentsMap.HasPkgTypeAttachment
+//@   props C04 C10
+//@   nilrecv
+//@   ensures result == (t != nil && contains(amTypeAtt(t, pkg, typename), attachment))
+//@   assigns nothing
+//@ func AttachmentsMap.HasPkgTypeFieldAttachment
+//@   props C04 C10
+//@   nilrecv
+//@   ensures result == (t != nil && contains(amFieldAtt(t, pkg, typename, field), attachment))
+//@   assigns nothing
+//@ func AttachmentsMap.HasPkgTypeMethodAttachment
+//@   props C04 C10
+//@   nilrecv
+//@   ensures result == (t != nil && contains(amMethAtt(t, pkg, typename, method), attachment))
+//@   assigns nothing
+//@ func AttachmentsMap.HasAnyTypeAttachments
+//@   props C04 C09 C10
+//@   nilrecv
+//@   ensures result == (am != nil && len(amTypeAtt(am, pkgPath, typeName)) > 0)
+//@   assigns nothing
+//@ func AttachmentsMap.HasAnyFunctionAttachments
+//@   props C04 C09 C10
+//@   nilrecv
+//@   ensures result == (am != nil && len(amFuncAtt(am, pkgPath, funcName)) > 0)
+//@   assigns nothing
+//@ func AttachmentsMap.HasAnyMethodAttachments
+//@   props C04 C09 C10
+//@   nilrecv
+//@   ensures result == (am != nil && len(amMethAtt(am, pkgPath, typeName, methodName)) > 0)
+//@   assigns nothing
+//@ func AttachmentsMap.Empty
+//@   props C04 C09 C10
+//@   nilrecv
+//@   ensures result == (am == nil || len(am.packageAttachments) == 0)
+//@   ensures result && am != nil ==> (forall p string, t string :: len(amTypeAtt(am, p, t)) == 0) && (forall p string, f string :: len(amFuncAtt(am, p, f)) == 0) && (forall p string, t string, m string :: len(amMethAtt(am, p, t, m)) == 0)
+//@   assigns nothing
+
+//@ func AttachmentsMap.GetPackageAttachments
+//@   props C04 C10
+//@   nilrecv
+//@   fresh
+//@   ensures (result != nil) == (am != nil && indom(am.packageAttachments, pkgPath))
+//@   ensures result != nil ==> *result == am.packageAttachments[pkgPath]
+//@   assigns nothing
+//@ func PackageAttachments.GetTypeAttachments
+//@   props C04 C10
+//@   nilrecv
+//@   fresh
+//@   ensures (result != nil) == (pa != nil && indom(pa.TypesAttachments, typeName))
+//@   ensures result != nil ==> *result == pa.TypesAttachments[typeName]
+//@   assigns nothing
+
+//@ func AttachmentsMap.GetAttachmentsForType
+//@   props C04 C10
+//@   nilrecv
+//@   requires am != nil
+//@   ensures len(excludes) == 0 ==> result == amTypeAtt(am, pkgPath, typeName)
+//@   assigns nothing
+//@   loop 1 invariant len(excludes) == 0 ==> len(attachments) == $i && (forall k int :: 0 <= k && k < $i ==> attachments[k] == $seq[k])
+//@ func AttachmentsMap.GetAttachmentsForFunction
+//@   props C04 C10
+//@   nilrecv
+//@   requires am != nil
+//@   ensures len(excludes) == 0 ==> result == amFuncAtt(am, pkgPath, funcName)
+//@   assigns nothing
+//@   loop 1 invariant len(excludes) == 0 ==> len(result) == $i && (forall k int :: 0 <= k && k < $i ==> result[k] == $seq[k])
+//@ func AttachmentsMap.GetAttachmentsForMethod
+//@   props C04 C10
+//@   nilrecv
+//@   requires am != nil
+//@   ensures len(excludes) == 0 ==> result == amMethAtt(am, pkgPath, typeName, methodName)
+//@   assigns nothing
+//@   loop 1 invariant len(excludes) == 0 ==> len(result) == $i && (forall k int :: 0 <= k && k < $i ==> result[k] == $seq[k])
+
+// ---- AttachmentsMap: the three insertions used by the @packageonly index ---------------------------------
+// "x extended by a": membership of the list after the insertion
+//@ macro func extBy(after []string, before []string, a string) bool = len(after) == len(before) + 1 && (forall x string :: contains(after, x) <==> (contains(before, x) || x == a))
+
+//@ func TypeAttachments.AddAttachment
+//@   props C04 C10
+//@   assigns t.LocalAttachments
+//@   ensures extBy(t.LocalAttachments, old(t.LocalAttachments), attachment)
+
+//@ func TypeAttachments.AddMethodAttachment
+//@   props C04 C10
+//@   requires t.MethodsAttachments != nil ==> allocated(t.MethodsAttachments)
+//@   assigns t.MethodsAttachments, t.MethodsAttachments[all]
+//@   ensures t.MethodsAttachments != nil && (old(t.MethodsAttachments) != nil ? t.MethodsAttachments == old(t.MethodsAttachments) : fresh(t.MethodsAttachments))
+//@   ensures extBy(t.MethodsAttachments[method], old(t.MethodsAttachments[method]), attachment)
+//@   ensures forall m string :: m != method ==> t.MethodsAttachments[m] == old(t.MethodsAttachments[m])
+
+//@ func PackageAttachments.AddFunctionAttachment
+//@   props C04 C10
+//@   requires t.FunctionsAttachments != nil ==> allocated(t.FunctionsAttachments)
+//@   assigns t.FunctionsAttachments, t.FunctionsAttachments[all]
+//@   ensures t.FunctionsAttachments != nil && (old(t.FunctionsAttachments) != nil ? t.FunctionsAttachments == old(t.FunctionsAttachments) : fresh(t.FunctionsAttachments))
+//@   ensures extBy(t.FunctionsAttachments[funcname], old(t.FunctionsAttachments[funcname]), attachment)
+//@   ensures forall f string :: f != funcname ==> t.FunctionsAttachments[f] == old(t.FunctionsAttachments[f])
+
+//@ func PackageAttachments.AddTypeAttachment
+//@   props C04 C10
+//@   requires t.TypesAttachments != nil ==> allocated(t.TypesAttachments)
+//@   assigns t.TypesAttachments, t.TypesAttachments[all]
+//@   ensures t.TypesAttachments != nil && (old(t.TypesAttachments) != nil ? t.TypesAttachments == old(t.TypesAttachments) : fresh(t.TypesAttachments))
+//@   ensures extBy(t.TypesAttachments[typename].LocalAttachments, old(t.TypesAttachments[typename].LocalAttachments), attachment)
+//@   ensures t.TypesAttachments[typename].FieldsAttachments == old(t.TypesAttachments[typename].FieldsAttachments) && t.TypesAttachments[typename].MethodsAttachments == old(t.TypesAttachments[typename].MethodsAttachments)
+//@   ensures forall u string :: u != typename ==> t.TypesAttachments[u] == old(t.TypesAttachments[u])
+
+// Well-formedness of an AttachmentsMap: the nested maps are allocated and no two places share a map.
+//@ macro func amTA(am *AttachmentsMap, p string) map[string]TypeAttachments = am.packageAttachments[p].TypesAttachments
+//@ macro func amFA(am *AttachmentsMap, p string) map[string][]string = am.packageAttachments[p].FunctionsAttachments
+//@ macro func amMA(am *AttachmentsMap, p string, t string) map[string][]string = am.packageAttachments[p].TypesAttachments[t].MethodsAttachments
+//@ macro func amFL(am *AttachmentsMap, p string, t string) map[string][]string = am.packageAttachments[p].TypesAttachments[t].FieldsAttachments
+//@ pure func amAlloc(am *AttachmentsMap) bool = (am.packageAttachments != nil ==> allocated(am.packageAttachments)) && (forall p string :: allocated(amTA(am, p)) && allocated(amFA(am, p))) && (forall p string, t string :: allocated(amMA(am, p, t)) && allocated(amFL(am, p, t)))
+//@ pure func amSepTA(am *AttachmentsMap) bool = forall p string, q string :: p != q && amTA(am, p) != nil ==> amTA(am, p) != amTA(am, q)
+//@ pure func amSepFA(am *AttachmentsMap) bool = (forall p string, q string :: p != q && amFA(am, p) != nil ==> amFA(am, p) != amFA(am, q)) && (forall p string, q string, t string :: amFA(am, p) != nil ==> amFA(am, p) != amMA(am, q, t) && amFA(am, p) != amFL(am, q, t))
+//@ pure func amSepMA(am *AttachmentsMap) bool = forall p string, t string, q string, u string :: amMA(am, p, t) != nil ==> amMA(am, p, t) != amFL(am, q, u) && (!(p == q && t == u) ==> amMA(am, p, t) != amMA(am, q, u))
+//@ pure func amSepFL(am *AttachmentsMap) bool = forall p string, t string, q string, u string :: amFL(am, p, t) != nil && !(p == q && t == u) ==> amFL(am, p, t) != amFL(am, q, u)
+//@ macro func amWF(am *AttachmentsMap) bool = amAlloc(am) && amSepTA(am) && amSepFA(am) && amSepMA(am) && amSepFL(am)
+
+//@ func PackageAttachments.AddTypeMethodAttachment
+//@   props C04 C10
+//@   requires t.TypesAttachments != nil ==> allocated(t.TypesAttachments)
+//@   requires allocated(t.TypesAttachments[typename].MethodsAttachments)
+//@   assigns t.TypesAttachments, t.TypesAttachments[all], t.TypesAttachments[typename].MethodsAttachments[all]
+//@   let oldMA = old(t.TypesAttachments[typename].MethodsAttachments)
+//@   let newMA = t.TypesAttachments[typename].MethodsAttachments
+//@   ensures t.TypesAttachments != nil && (old(t.TypesAttachments) != nil ? t.TypesAttachments == old(t.TypesAttachments) : fresh(t.TypesAttachments))
+//@   ensures newMA != nil && (oldMA != nil ? newMA == oldMA : fresh(newMA))
+//@   ensures extBy(newMA[method], old(t.TypesAttachments[typename].MethodsAttachments[method]), attachment)
+//@   ensures forall m string :: m != method ==> newMA[m] == old(t.TypesAttachments[typename].MethodsAttachments[m])
+//@   ensures t.TypesAttachments[typename].FieldsAttachments == old(t.TypesAttachments[typename].FieldsAttachments) && t.TypesAttachments[typename].LocalAttachments == old(t.TypesAttachments[typename].LocalAttachments)
+//@   ensures forall u string :: u != typename ==> t.TypesAttachments[u] == old(t.TypesAttachments[u])
+
+//@ func AttachmentsMap.AddPkgTypeAttachment
+//@   props C04 C10
+//@   requires amWF(t)
+//@   assigns t.packageAttachments, t.packageAttachments[all], amTA(t, pkg)[all]
+//@   ensures forall p string :: (amTA(t, p) == old(amTA(t, p)) || (p == pkg && fresh(amTA(t, p)))) && amFA(t, p) == old(amFA(t, p))
+//@   ensures forall p string, u string :: amMA(t, p, u) == old(amMA(t, p, u)) && amFL(t, p, u) == old(amFL(t, p, u))
+//@   ensures amAlloc(t)
+//@   ensures amSepTA(t)
+//@   ensures amSepFA(t)
+//@   ensures amSepMA(t)
+//@   ensures amSepFL(t)
+//@   ensures extBy(amTypeAtt(t, pkg, typename), old(amTypeAtt(t, pkg, typename)), attachment)
+//@   ensures forall p string, u string :: !(p == pkg && u == typename) ==> amTypeAtt(t, p, u) == old(amTypeAtt(t, p, u))
+//@   ensures forall p string, f string :: amFuncAtt(t, p, f) == old(amFuncAtt(t, p, f))
+//@   ensures forall p string, u string, m string :: amMethAtt(t, p, u, m) == old(amMethAtt(t, p, u, m))
+
+//@ func AttachmentsMap.AddPkgFunctionAttachment
+//@   props C04 C10
+//@   requires amWF(t)
+//@   assigns t.packageAttachments, t.packageAttachments[all], amFA(t, pkg)[all]
+//@   ensures forall p string :: amTA(t, p) == old(amTA(t, p)) && (amFA(t, p) == old(amFA(t, p)) || (p == pkg && fresh(amFA(t, p))))
+//@   ensures forall p string, u string :: amMA(t, p, u) == old(amMA(t, p, u)) && amFL(t, p, u) == old(amFL(t, p, u))
+//@   ensures amAlloc(t)
+//@   ensures amSepTA(t)
+//@   ensures amSepFA(t)
+//@   ensures amSepMA(t)
+//@   ensures amSepFL(t)
+//@   ensures extBy(amFuncAtt(t, pkg, funcname), old(amFuncAtt(t, pkg, funcname)), attachment)
+//@   ensures forall p string, f string :: !(p == pkg && f == funcname) ==> amFuncAtt(t, p, f) == old(amFuncAtt(t, p, f))
+//@   ensures forall p string, u string :: amTypeAtt(t, p, u) == old(amTypeAtt(t, p, u))
+//@   ensures forall p string, u string, m string :: amMethAtt(t, p, u, m) == old(amMethAtt(t, p, u, m))
+
+//@ func AttachmentsMap.AddPkgTypeMethodAttachment
+//@   props C04 C10
+//@   requires amWF(t)
+//@   assigns t.packageAttachments, t.packageAttachments[all], amTA(t, pkg)[all], amMA(t, pkg, typename)[all]
+//@   ensures forall p string :: (amTA(t, p) == old(amTA(t, p)) || (p == pkg && fresh(amTA(t, p)))) && amFA(t, p) == old(amFA(t, p))
+//@   ensures forall p string, u string :: (amMA(t, p, u) == old(amMA(t, p, u)) || (p == pkg && u == typename && fresh(amMA(t, p, u)))) && amFL(t, p, u) == old(amFL(t, p, u))
+//@   ensures amAlloc(t)
+//@   ensures amSepTA(t)
+//@   ensures amSepFA(t)
+//@   ensures amSepMA(t)
+//@   ensures amSepFL(t)
+//@   ensures extBy(amMethAtt(t, pkg, typename, method), old(amMethAtt(t, pkg, typename, method)), attachment)
+//@   ensures forall p string, u string, m string :: !(p == pkg && u == typename && m == method) ==> amMethAtt(t, p, u, m) == old(amMethAtt(t, p, u, m))
+//@   ensures forall p string, u string :: amTypeAtt(t, p, u) == old(amTypeAtt(t, p, u))
+//@   ensures forall p string, f string :: amFuncAtt(t, p, f) == old(amFuncAtt(t, p, f))
